@@ -21,8 +21,11 @@ type setopCase struct {
 	L  []string `json:"list,omitempty"`
 }
 
+// magnitude: the largest absolute ordinate of the operands — the scale every tolerance is relative
+// to. (It used to be floored at 1, which made every tolerance comparison vacuous for the float
+// images at 1e-100; see DESIGN §9.19.)
 func magnitude(gs ...*exact.G) float64 {
-	m := 1.0
+	m := 0.0
 	upd := func(p exact.Pt) {
 		x, y := p.Floats()
 		m = math.Max(m, math.Max(math.Abs(x), math.Abs(y)))
